@@ -88,6 +88,15 @@ Section GenRun.
     | Some st' => Some (enc_state cf st')
     end.
 
+  (* solver.init: plain (cinit = false) or with the initial-constraint update;
+     encodes u, (backward model), scales AND the posterior marginal *)
+  Definition g_init (cf : @config F) (t0 : F) (u0 : list normal) (cinit : bool) : option (list F) :=
+    let st := if cinit then solver_init_constrained ginv cf t0 u0 else Some (solver_init cf t0 u0) in
+    match st with
+    | None => None
+    | Some st => Some (enc_state cf st ++ enc_fnormal (cf_shape cf) (p_marg (st_post st)))
+    end.
+
   Definition g_finalize (cf : @config F) (st0 : @sstate F) (sts : list (@sstate F))
              (st1 : @sstate F) : option (list F) :=
     (* st1 is the LAST STATE of a fixed-grid solve; solve_fixed_grid hands
